@@ -16,6 +16,8 @@ import (
 	"verif/internal/rules"
 )
 
+var debugHook func(w *core.World)
+
 func main() {
 	prop := flag.String("property", "", "property id (C01..C20) or 'all'")
 	tier := flag.String("tier", "quick", "quick | thorough")
@@ -81,6 +83,9 @@ func main() {
 	}
 
 	w, lerr := core.Load(opts)
+	if debugHook != nil && lerr == nil {
+		debugHook(w)
+	}
 	exit := 0
 	for _, p := range props {
 		rep := core.NewReport(p, *tier)
